@@ -21,7 +21,7 @@ static const uint64_t kCorr[] = {0, 1, 2, 254, 255, 256, 0x7fffffffULL, 0x800000
 static Bytes genImprint(Dec &d, int alg) { const ref::AlgInfo *a = ref::algInfo(alg); Bytes b; b.push_back((uint8_t)alg); uint8_t s = d.byte(), st = (uint8_t)(d.byte() | 1); for (unsigned i = 0; i < a->digestLen; i++) { b.push_back(s); s = (uint8_t)(s + st); } return b; }
 
 static Bytes genMeta(Dec &d) { // schema-valid metadata record content, children in shortest header form
-    Bytes c; unsigned nameLen = 1 + d.pick(12); std::string name; for (unsigned i = 0; i < nameLen; i++) name.push_back((char)('a' + d.pick(26)));
+    Bytes c; unsigned nameLen = 1 + d.pick(12); if (d.pick(6) == 0) { static const unsigned nb[] = {252, 253, 254, 255, 256, 126}; nameLen = nb[d.pick(6)]; } /* values around the one-byte length limit (254 characters + NUL = 255 octets) */ std::string name; for (unsigned i = 0; i < nameLen; i++) name.push_back((char)('a' + d.pick(26)));
     std::vector<Tlv> kids;
     kids.push_back(Tlv::str(0x01, name));
     if (d.flag()) kids.push_back(Tlv::str(0x02, "m" + name));
@@ -135,6 +135,10 @@ static void modeParsed(Dec &d, Case &c) {
         else if (m == 2 && !levels.empty()) { ref::ChainResult pr = ref::aggregate(r.links, r.in, levels.back(), r.alg); start = pr.ok ? pr.level : (int)d.pick(256); } // previous output level
         else start = d.pick(3) == 0 ? (int)d.pick(256) : (int)d.pick(20);
         levels.push_back(start);
+        if (i > 0 && d.pick(3) == 0) { // read the metadata records through their getters between two aggregations (this converts them to their nested form); the hashed bytes must stay the parsed ones
+            KSI_LIST(KSI_HashChainLink) *ll = nullptr; KSI_AggregationHashChain_getChain(p.c, &ll); for (size_t k = 0; k < KSI_HashChainLinkList_length(ll); k++) { KSI_HashChainLink *lk = nullptr; KSI_HashChainLinkList_elementAt(ll, k, &lk); KSI_MetaDataElement *md = nullptr; if (lk) KSI_HashChainLink_getMetaData(lk, &md);
+                if (md) { KSI_Utf8String *u = nullptr; KSI_Integer *q = nullptr; KSI_OctetString *o = nullptr; KSI_MetaDataElement_getClientId(md, &u); KSI_MetaDataElement_getMachineId(md, &u); KSI_MetaDataElement_getSequenceNr(md, &q); KSI_MetaDataElement_getRequestTimeInMicros(md, &q); KSI_MetaDataElement_getPadding(md, &o); c.cls("parsed:metadata-read-through-getters"); } }
+            seq += "g"; }
         ref::ChainResult want = ref::aggregate(r.links, r.in, start, r.alg);
         int endLevel = -777; KSI_DataHash *root = nullptr; int ra = KSI_AggregationHashChain_aggregate(p.c, start, &endLevel, &root);
         seq += num(start) + (want.ok ? "+" : "-");
